@@ -18,6 +18,12 @@ theorem marker_agreement : recorderClear = leptondClear ∧ recorderClear.utf8By
 theorem header_keys_agree : leptondHeaderKeys = recorderHeaderKeys ∧
     headerBlankLineTest = "strings.Trim(line, \" \") == \"\\n\"" := by decide
 
+/-- C14: the camera daemon describes the camera with the camera's own values (resolution, frame size, fps,
+brand from the lepton3 package; model, 64-bit serial and firmware as read from the camera) -/
+theorem leptond_header_values : leptondHeaderValues =
+    "headers.Brand:lepton3.Brand;headers.FPS:camera.FPS();headers.Firmware:firmware;headers.FrameSize:lepton3.BytesPerFrame;headers.Model:model;headers.Serial:serial;headers.XResolution:camera.ResX();headers.YResolution:camera.ResY()" :=
+  rfl
+
 /-- C18: 256 buffers circulate between two channels of that capacity; the reader takes a spent buffer,
 fills it, hands it to the writer, and closes the queue on a read error; the writer writes a frame
 before returning its buffer and closes the file when the queue is closed -/
